@@ -30,7 +30,8 @@ template class Interval<float, 3>;
   template SphericalCoordinates<S> toSpherical<S>(const HomogeneousCoordinates3<S> &); \
   template CartesianCoordinates3<S> toCartesian<S>(const SphericalCoordinates<S> &); \
   template HomogeneousCoordinates3<S> toHomogeneous<S>(const SphericalCoordinates<S> &); \
-  template S romea_verif_scalar_api<S>(S, S, S);
+  template S romea_verif_scalar_api<S>(S, S, S); \
+  template S romea_verif_value_classes<S>(S, S, S);
 // the scalar overloads of the coordinate transforms are instantiated through calls (overload resolution), not through explicit instantiations, so that a change of a parameter's
 // order or constness still yields a unit the front end accepts
 template<typename S> S romea_verif_scalar_api(S a, S b, S c)
@@ -38,6 +39,15 @@ template<typename S> S romea_verif_scalar_api(S a, S b, S c)
   return SphericalTransform::range(a, b, c) + SphericalTransform::azimut(a, b) + SphericalTransform::elevation(a, b) + SphericalTransform::elevation(a, b, c) +
          SphericalTransform::x(a, b, c) + SphericalTransform::y(a, b, c) + SphericalTransform::z(a, b) + PolarTransform::azimut(a, b) + PolarTransform::range(a, b) +
          PolarTransform::x(a, b) + PolarTransform::y(a, b);
+}
+// copy construction and copy assignment of the coordinate value classes (instantiated through use, whatever their declaration looks like)
+template<typename S> S romea_verif_value_classes(S a, S b, S c)
+{
+  PolarCoordinates<S> p1(a, b), p2(p1);
+  p2 = p1;
+  SphericalCoordinates<S> s1(a, b, c), s2(s1);
+  s2 = s1;
+  return p2.getRange() + s2.getElevation();
 }
 #define ROMEA_VERIF_CONT(P) std::vector<P, Eigen::aligned_allocator<P>>
 template Eigen::Array2d min<ROMEA_VERIF_CONT(Eigen::Array2d)>(const ROMEA_VERIF_CONT(Eigen::Array2d) &);
